@@ -54,8 +54,11 @@ def proj_val(kind, v):
     raise MachineryError(kind)
 
 
+_SHAPE = [0]      # owner shape: 0 an ordinary HasTraits class, 1 a class whose instances are FALSY (__len__ gives 0)
+
+
 def get_class(cfg):
-    key = json.dumps(cfg, sort_keys=True)
+    key = json.dumps(cfg, sort_keys=True) + "|%d" % _SHAPE[0]
     if key in _classes:
         return _classes[key]
     build.install()
@@ -76,7 +79,10 @@ def get_class(cfg):
     else:
         raise MachineryError(kind)
     name = "H_%d" % len(_classes)
-    cls = type(name, (HasTraits,), {"xs": tr, "__module__": __name__})
+    ns = {"xs": tr, "__module__": __name__}
+    if _SHAPE[0] == 1:
+        ns["__len__"] = lambda self: 0
+    cls = type(name, (HasTraits,), ns)
     globals()[name] = cls            # so that instances pickle
     _classes[key] = cls
     return cls
@@ -237,13 +243,17 @@ class PreStateError(Exception):
     """the pre-state is not a legal value of the trait (only after an already reported violation)"""
 
 
-def execute(cfg, pre, op, sub, a, xs, cs, via="assign", badrep=0):
+def execute(cfg, pre, op, sub, a, xs, cs, via="assign", badrep=0, shape=0):
     _BADREP[0] = badrep
+    _SHAPE[0] = shape
     try:
         r = _execute(cfg, pre, op, sub, a, xs, cs, via)
     finally:
         _BADREP[0] = 0
+        _SHAPE[0] = 0
     r["badrep"] = badrep
+    if shape:
+        r["shape"] = shape
     return r
 
 
@@ -252,6 +262,8 @@ def _execute(cfg, pre, op, sub, a, xs, cs, via):
     from traits.trait_errors import TraitError
     kind = cfg["kind"]
     cls = get_class(cfg)
+    if op == "default":
+        return _execute_default(cfg, cls, kind, pre, a, via)
     try:
         obj = establish(cls, kind, pre, via)
     except TraitError:
@@ -272,7 +284,12 @@ def _execute(cfg, pre, op, sub, a, xs, cs, via):
     exc = ""
     ret = None
     try:
-        if op == "assign":
+        if op == "reset":
+            if a[0] == 0:
+                del obj.xs
+            else:
+                obj.reset_traits(["xs"])
+        elif op == "assign":
             c = cs[0]
             if kind in ("list", "listlist"):
                 obj.xs = conc_lc(c)
@@ -323,6 +340,29 @@ def _execute(cfg, pre, op, sub, a, xs, cs, via):
             "via": via, "viapre": viapre}
 
 
+def _execute_default(cfg, cls, kind, pre, a, via):
+    """the first read of the never-assigned attribute on a fresh object (a sibling holds `pre` and must keep it)"""
+    from traits.trait_errors import TraitError
+    sib = establish(cls, kind, pre, "assign")
+    obj = cls()
+    got = []
+    obj.on_trait_change(lambda: got.append(1), "xs")
+    exc = ""
+    try:
+        post = proj_val(kind, obj.xs)
+        again = proj_val(kind, obj.xs)
+        if post != again:
+            exc = "DefaultNotStable"
+    except TraitError:
+        exc, post = "TraitError", pre
+    except Exception as e:
+        exc, post = type(e).__name__, pre
+    if proj_val(kind, sib.xs) != pre:
+        exc = "SiblingChanged"
+    return {"cfg": cfg, "kind": kind, "op": "default", "sub": "", "a": list(a), "xs": [], "cs": [], "pre": pre, "post": post,
+            "exc": exc, "ret": NONE, "nitems": 0, "nchange": len(got), "evs": [], "via": "assign", "viapre": pre}
+
+
 def _plain(v):
     from ..tlaval import to_py
     return to_py(v)
@@ -345,6 +385,13 @@ def case_fn(st, rep):
         cs = [sorted(A) if isinstance(A, list) else ({"isset": A["isset"], "items": sorted(A["items"])}) for A in cs]
     if rep == 1 and "99" not in json.dumps([xs, cs, list(last["a"])]):
         return None          # second representative of the Invalid item (Undefined): only cases that use it
+    if rep == 2:
+        # a falsy owner object: a quarter of the cases
+        import zlib
+        if zlib.crc32(json.dumps([cfg, pre, last["op"], list(last["a"])], sort_keys=True).encode()) % 4:
+            return None
+        r = execute(cfg, pre, last["op"], last["sub"], list(last["a"]), xs, cs, shape=1)
+        return {"fail": None, "line": r, "sample": r}
     r = execute(cfg, pre, last["op"], last["sub"], list(last["a"]), xs, cs, badrep=rep)
     return {"fail": None, "line": r, "sample": r}
 
@@ -404,6 +451,7 @@ def history_lines(seed, ntraces, steps):
                                        for _ in range(rnd.randint(0, 3))]}
     for t in range(ntraces):
         cfg = rnd.choice(cfgs)
+        hshape = 1 if rnd.random() < 0.25 else 0
         kind = cfg["kind"]
         if kind == "list":
             n0 = rnd.randint(cfg["lo"], min(cfg["hi"], cfg["lo"] + 3))
@@ -486,7 +534,7 @@ def history_lines(seed, ntraces, steps):
                 else:
                     op, sub, a = "delitem", "outer", [rnd.choice([1, 2, 3]), 0, 0]
             try:
-                r = execute(cfg, cur, op, sub, a, xs, cs, via=rnd.choice(VIAS), badrep=rnd.choice([0, 0, 1, 2]))
+                r = execute(cfg, cur, op, sub, a, xs, cs, via=rnd.choice(VIAS), badrep=rnd.choice([0, 0, 1, 2]), shape=hshape)
             except PreStateError:
                 break       # the previous step left an illegal value; the judge rejects that step
             r["tid"] = t
@@ -520,7 +568,7 @@ def run(rep, tier, seed):
                           heap="6g" if tier == "quick" else "16g")
         rep.add_tlc("ContainerTraitsMC_cases", res)
         trace = os.path.join(work, "trace.ndjson")
-        tot = cases.run_dump_cases(dump + ".dump", case_fn, out_ndjson=trace, reps=2)
+        tot = cases.run_dump_cases(dump + ".dump", case_fn, out_ndjson=trace, reps=3)
         os.unlink(dump + ".dump")
         if tot["ncases"] == 0:
             raise MachineryError("no cases in dump")
